@@ -339,6 +339,26 @@ pub async fn round(run: &mut Run, disc: SignedEntityTypeDiscriminants, early: bo
 
     let k = pp.k;
     let mut honest_delivered: BTreeMap<String, SingleSignature> = BTreeMap::new();
+    // an earlier round on the same message that did not reach the quorum left its accepted
+    // signatures behind (table, or buffer for an early round): a party whose own sigma (BLS is
+    // deterministic: the harness re-makes the same one) is already held under its own name HAS
+    // delivered; its contribution is what is held now
+    {
+        let snap0 = sim::snapshot(&run.sim.db_path())?;
+        let mut held: Vec<(String, String, Vec<u64>)> = rows_for(run, &snap0, &set);
+        for (party, sig) in buffered_rows(&snap0) {
+            let (sigma, idx) = decode_stored(&sig);
+            held.push((party, sigma, idx));
+        }
+        for (label, sigma, idx) in held {
+            if let Some(h) = honest.get(&label) {
+                if sig_hex(h) == sigma && !honest_delivered.contains_key(&label) {
+                    honest_delivered.insert(label.clone(), with_indexes(h, &idx));
+                    mon.count("honest_signature_already_held_from_an_earlier_round_on_the_same_message");
+                }
+            }
+        }
+    }
     let mut reported: BTreeSet<String> = BTreeSet::new();
     let mut trace: Vec<Value> = vec![];
     let replay = |trace: &Vec<Value>, extra: Value| json!({"history": hid, "signed_entity_type": format!("{set:?}"), "early": early, "submissions": trace, "detail": extra});
